@@ -8,7 +8,7 @@
    the bytes in the output after Close. *)
 From Coq Require Import String List NArith.
 Import ListNotations.
-From Verif Require Import Common.Base Model.Ivf Proofs.Ivf.
+From Verif Require Import Common.Base Model.Ivf Proofs.Ivf Proofs.IvfMore.
 Open Scope N_scope.
 
 (* little-endian encoding of every n below the width decodes to n *)
@@ -96,6 +96,50 @@ Theorem c32_gate_keyframe : forall o ps,
 Proof. exact gate_keyframe_statement. Qed.
 Print Assumptions c32_gate_keyframe.
 
+(* The stronger keyframe gate: whatever precedes the first keyframe packet -
+   interframes, undecodable or empty payloads, any timestamps, any number of
+   packets - leaves no trace: the file (both output kinds), the frames with
+   their timestamps and source packets, and the results of the WriteRTP calls
+   from the keyframe packet on are those of the stream that starts there; the
+   calls of the prefix do not panic.  (firstFrameTimestamp is written by every
+   non-empty packet while no frame has been written and read only after the
+   same packet has written it, so the value a prefix leaves behind is dead.) *)
+Theorem c32_gate_prefix : forall o pre ps seekable,
+  Forall (fun p => key_pkt (o_codec o) p = false) pre ->
+  written o (pre ++ ps) seekable = written o ps seekable /\
+  frames_of o (pre ++ ps) = frames_of o ps /\
+  skipn (length pre) (snd (run_packets o (init_state o) (pre ++ ps)))
+  = snd (run_packets o (init_state o) ps) /\
+  ~ In SPanic (firstn (length pre) (snd (run_packets o (init_state o) (pre ++ ps)))).
+Proof. exact prefix_no_trace. Qed.
+Print Assumptions c32_gate_prefix.
+
+(* The size premise of c32_roundtrip is needed, for every stream: as soon as
+   one assembled frame has 2^32 bytes or more (its size field holds the length
+   mod 2^32, c32_oversize_frame), the file does not read back as the frames
+   handed to writeFrame, whatever header and final error one allows.  (No
+   concrete witness: a 4 GiB frame is not a Coq term, nor a harness case.) *)
+Theorem c32_oversize_frame : forall o f rest,
+  o_num o <> 0 -> f_pts f < 2 ^ 64 ->
+  4294967296 <= N.of_nat (length (f_bytes f)) ->
+  exists fr rest',
+    parse_next_frame (o_den o) (o_num o) (frame_record f ++ rest) = Ok (fr, rest') /\
+    r_size fr = N.of_nat (length (f_bytes f)) mod 4294967296 /\
+    N.of_nat (length (r_payload fr)) = N.of_nat (length (f_bytes f)) mod 4294967296 /\
+    r_payload fr <> f_bytes f.
+Proof. exact parse_frame_oversize. Qed.
+Print Assumptions c32_oversize_frame.
+
+Theorem c32_size_premise_needed : forall o ps seekable,
+  opts_ok o ->
+  ~ Forall (fun f => N.of_nat (length (f_bytes f)) < 4294967296) (frames_of o ps) ->
+  forall h e,
+    read_file (written o ps seekable)
+    <> Ok (h, map (fun f => mkRframe (f_bytes f) (N.of_nat (length (f_bytes f)))
+                                     (u64 (f_pts f * o_den o) / o_num o)) (frames_of o ps), e).
+Proof. exact size_premise_needed. Qed.
+Print Assumptions c32_size_premise_needed.
+
 (* WriteRTP never panics once NewWith accepted the options (after fix 73900d2;
    before it a VP8 descriptor with an empty payload indexed out of range) *)
 Theorem c32_no_panic : forall o ps,
@@ -114,6 +158,20 @@ Example c32_example :
   map f_bytes (frames_of o ps) = [[156; 1; 2; 3; 4]; [157; 7]] /\
   map f_pts (frames_of o ps) = [0; 1].
 Proof. cbv zeta. repeat split; try (vm_compute; congruence); vm_compute; reflexivity. Qed.
+
+(* a prefix without keyframe packet (interframe, undecodable packet, empty
+   payload) before the stream of c32_example: same frames, same PTS *)
+Example c32_example_prefix :
+  let o := mkOpts VP8 640 480 1 30 false in
+  let pre := [mkPkt 77 true false false true false [157; 9]; mkPkt 99 false false true false false [];
+              mkPkt 5 true true false false false []] in
+  let ps := [mkPkt 4294967000 false false false true false [156; 1; 2];
+             mkPkt 4294967000 true false false false false [3; 4];
+             mkPkt 2704 true false false true false [157; 7]] in
+  Forall (fun p => key_pkt VP8 p = false) pre /\
+  map f_bytes (frames_of o (pre ++ ps)) = [[156; 1; 2; 3; 4]; [157; 7]] /\
+  map f_pts (frames_of o (pre ++ ps)) = [0; 1].
+Proof. cbv zeta. split; [repeat constructor|]. split; vm_compute; reflexivity. Qed.
 
 (* a stream without a keyframe packet that is not empty *)
 Example c32_example_nokey :
